@@ -186,6 +186,7 @@ class FakeNet:
         self.lock = threading.RLock()
         self.on_call = None     # optional hook(type, sock) -- scheduler yield point
         self.trace_enabled = True
+        self.capture = None         # call id -> bytearray of everything delivered during that call (when a dict is installed)
         self.counts = {}
         self.clock = None       # optional VClock for contact timestamps
         self.contacts = []      # (time, sockaddr, ok) for every connect() attempt
@@ -600,6 +601,8 @@ class FakeSocket:
             if not seg:
                 self.rx.pop(0)
         self._pos += len(out)
+        if net.capture is not None:
+            net.capture.setdefault(cur, bytearray()).extend(out)
         net.counts["bytes_delivered"] = net.counts.get("bytes_delivered", 0) + len(out)
         net.counts["pieces"] = net.counts.get("pieces", 0) + 1
         return bytes(out)
